@@ -67,7 +67,7 @@ pub fn property() -> Property {
                     Tier::Thorough => Plan::Random { cases: 3_000_000, max_len: 900 },
                 },
                 case: case_small,
-                min_classes: &[("return-from-inside-for", 300), ("return-from-inside-while", 300), ("return-from-inside-branch", 1000), ("scoped-call-with-value", 1000), ("scoped-call-without-value", 1000), ("call-in-condition-position", 1000), ("direct-recursion", 300)],
+                min_classes: &[("return-from-inside-for", 300), ("return-from-inside-while", 300), ("return-from-inside-branch", 1000), ("scoped-call-with-value", 1000), ("scoped-call-without-value", 1000), ("call-in-condition-position", 1000), ("direct-recursion", 300), ("condition-call-with-the-same-words-cut-differently", 15)],
             },
             Section {
                 name: "large-programs",
